@@ -15,13 +15,13 @@ run() {
   name=$1
   (cd $M/harness && CARGO_TARGET_DIR=$M/target CARGO_NET_OFFLINE=true cargo build --offline --quiet 2>/dev/null) || { echo "MUTATION $name: does not compile"; return; }
   (cd $M/repo && CARGO_TARGET_DIR=$M/target-test CARGO_NET_OFFLINE=true cargo test --workspace --offline --quiet >/dev/null 2>&1) && t="tests pass" || t="TESTS FAIL"
-  (cd /verif && C17_AVH_OVERRIDE=$M/target/debug/avh ./check C17 --tier quick > $M/out_$name.txt 2>&1; echo "exit=$?" >> $M/out_$name.txt)
+  (cd /verif && C17_AVH_OVERRIDE=$M/target/debug/avh ./check C17 --tier quick > $M/out_$name.txt 2>&1 && echo "exit=0" >> $M/out_$name.txt || echo "exit=1" >> $M/out_$name.txt)
   nv=$(grep -c "^VIOLATION" $M/out_$name.txt || true)
   first=$(grep -m1 "^VIOLATION" $M/out_$name.txt || true)
   echo "MUTATION $name ($t): violations=$nv $(tail -1 $M/out_$name.txt)  first: $first"
   grep "obligation BROKEN" $M/out_$name.txt | cut -c1-150 | sed 's/^/    /'
   r=$(echo "$first" | sed -n 's/.*replay=\([^ ]*\).*/\1/p')
-  if [ -n "$r" ]; then (cd /verif && C17_AVH_OVERRIDE=$M/target/debug/avh ./check C17 --replay $r 2>&1 | tail -1 | sed 's/^/    replay with the mutation: /'); fi
+  if [ -n "$r" ]; then (cd /verif && C17_AVH_OVERRIDE=$M/target/debug/avh ./check C17 --replay $r 2>&1 | tail -1 | sed 's/^/    replay with the mutation: /' || true); fi
   cp $M/element.rs.orig $F; cp $M/arxmlfile.rs.orig $A
 }
 # 1 skip the attribute value check
